@@ -12,8 +12,8 @@ def run(ctx):
     common.replay_layer(ctx, "MC_Reporters.tla", "MC_Reporters_quick.cfg" if q else "MC_Reporters_thorough.cfg", "reporters-replay", "reporters",
                         workers=10, heap="3g", shape_filter=lambda sh: sh.startswith(CSV))
     # the two book exports: every enumerated book of Resolver.tla through `csv database` / `csv database-resolved`
-    for cfg in (["MC_Resolver_c01_quick_a.cfg", "MC_Resolver_c01_quick_b.cfg"] if q else ["MC_Resolver_c01_quick_a.cfg", "MC_Resolver_c01_quick_b.cfg", "MC_Resolver_c01_thorough_a.cfg"]):
-        common.replay_layer(ctx, "MC_Resolver.tla", cfg, "book-reports-replay", "books_" + cfg[12:-4], args={"stride": 3 if q else 1}, workers=8,
+    for cfg in (["MC_Resolver_records.cfg", "MC_Resolver_c01_quick_a.cfg", "MC_Resolver_c01_quick_b.cfg"] if q else ["MC_Resolver_records.cfg", "MC_Resolver_c01_quick_a.cfg", "MC_Resolver_c01_quick_b.cfg", "MC_Resolver_c01_thorough_a.cfg"]):
+        common.replay_layer(ctx, "MC_Resolver.tla", cfg, "book-reports-replay", "books_" + cfg[12:-4].replace("c01_", ""), args={"stride": 3 if q else 1}, workers=8,
                             shape_filter=lambda sh: sh.startswith(CSV + ("resolver-status",)))
     # decimal data: amounts within half a unit of the last printed digit of the true value
     res = ctx.drv("csv-decimal", outfile=ctx.scratch + "/dec_mm.ndjson", args={"files": 300 if q else 5000})
